@@ -1413,9 +1413,9 @@ def run_corpus(ctx: Ctx, n_items: int, dtypes, fd_every: int, rows_fn=None, stre
             if not structural_checks(ctx, case, r):
                 continue
             measure_floor(case, r)
-            # item-wise = batched, on the real code
+            # item-wise = batched, on the real code (quick: the float32 tie corpus leaves this to its float64 twin)
             nb = case["bshape"][0]
-            for b in range(nb):
+            for b in range(nb if not (ctx.quick and stream != "corpus" and dtype == "float32") else 0):
                 c1 = single_item_case(case, b)
                 try:
                     r1 = run_case_impl(c1)
@@ -1751,7 +1751,7 @@ def run(ctx: Ctx):
     H2.run_all(ctx)            # pass 2: interleavings, argument combinations, error paths, grad modes, duck types, copies, memory, sizes
     run_corpus(ctx, n_items=ctx.pick(10, 24), dtypes=("float64", "float32"), fd_every=ctx.pick(3, 1))
     # pass 4 (20): exact coincidences (quarter turns |v| == |w|, theta == 0.05 / eps, |sigma| == theta, Y == X, p == t, ...)
-    run_corpus(ctx, n_items=12, dtypes=("float64", "float32"), fd_every=ctx.pick(4, 1), rows_fn=H4.tie_values, stream="ties")
+    run_corpus(ctx, n_items=12, dtypes=ctx.pick(("float64",), ("float64", "float32")), fd_every=ctx.pick(4, 1), rows_fn=H4.tie_values, stream="ties")
     # pass 5 (36): tiny-but-non-zero rotations, nearly equal operands, cotangents scaled by 2^+-40 (float64)
     run_corpus(ctx, n_items=12, dtypes=("float64",), fd_every=ctx.pick(4, 1), rows_fn=H5.tiny_values, stream="tiny", cot_fn=H5.tiny_cot)
     run_reuse(ctx)
@@ -1763,6 +1763,7 @@ def run(ctx: Ctx):
     H5.run_defaults(ctx)       # (29)
     H5.run_callbacks(ctx)      # (31)
     H5.run_subprops(ctx)       # (33)
+    H5.run_subsets(ctx)        # (37) every subset of operands requiring grad
     H5.run_huge(ctx)           # (34) > 2^17 items
     H4.run_subclasses(ctx)     # (21)
     H4.run_default_dtype(ctx)  # (25)
@@ -1771,10 +1772,10 @@ def run(ctx: Ctx):
     H4.run_large(ctx)          # (19), (28): 2^14+1 / 2^16+1 items, kernel switch-over sizes
     # seeded part
     run_local(ctx, ctx.pick(1, 8))
-    run_prog(ctx, ctx.pick(48, 1600))
-    run_routes(ctx, ctx.pick(16, 240))
+    run_prog(ctx, ctx.pick(32, 1600))
+    run_routes(ctx, ctx.pick(12, 240))
     from . import util_autograd_batch as HB
-    HB.run_batch(ctx, ctx.pick(30, 400))   # pass 3: the model's own batched / broadcasting layer (c04.bcall) against the code
+    HB.run_batch(ctx, ctx.pick(24, 400))   # pass 3: the model's own batched / broadcasting layer (c04.bcall) against the code
 
 
 def search(ctx: Ctx):
